@@ -1972,3 +1972,79 @@ def export_analyses(root: Any, interner: Interner, rid: str) -> dict:
                                  "mat_noout") else 0
     rec["res"] = res
     return rec
+
+
+# --------------------------------------------------------------------------
+# 10. deterministic edge-kind witnesses (independent of VERIF_SEED)
+
+def witness_graphs() -> dict[str, Any]:
+    """API-built graphs, one per edge kind, in each of which some array is
+    reachable ONLY through an edge of that kind (were it also an operand
+    elsewhere, a mapper that skips the edge would still come across it and
+    the omission would be hidden).  Built without any random choice, so every
+    run -- whatever the seed -- pushes every entry point over every edge kind."""
+    import loopy as lp
+    import pytato as pt
+    from pytato.distributed.nodes import make_distributed_recv, staple_distributed_send
+    f8 = np.float64
+
+    def ph(name: str, shape: tuple = (4, 4), dtype: Any = f8) -> Any:
+        return pt.make_placeholder(name, shape, dtype)
+
+    W: dict[str, Any] = {}
+    x, y = ph("x"), ph("y")
+    # operand only
+    W["operand"] = {"out": pt.sin(x) + y @ x}
+    # array-valued shape component: n is reachable only through shapes
+    n = pt.make_size_param("n")
+    a, b = ph("a", (n, 4)), ph("b", (n, 4))
+    W["shape"] = {"out": a + 2 * b}
+    # the shape of a DataWrapper
+    m = pt.make_size_param("m")
+    W["shape_dw"] = {"out": pt.make_data_wrapper(np.ones((3, 4)), shape=(m, 4)) + 1}
+    # array index (contiguous): idx only sits in the index field
+    idx = ph("idx", (4,), np.int64)
+    W["index"] = {"out": x[idx] + 1}
+    idx2 = ph("idx2", (4,), np.int64)
+    W["index2"] = {"out": x[idx, idx2]}
+    # non-contiguous advanced indices
+    z = ph("z", (4, 4, 4))
+    i1, i2 = ph("i1", (4,), np.int64), ph("i2", (4,), np.int64)
+    W["index_nc"] = {"out": z[i1, :, i2] * 2}
+    # an index array that is an expression, under an einsum
+    W["index_einsum"] = {"out": pt.einsum("ij,jk->ik", x[(idx + 0) % 4], y)}
+    # CSR parts: values / column indices / row starts only sit in the matrix
+    ev = ph("ev", (8,))
+    ec = ph("ec", (8,), np.int64)
+    rs = ph("rs", (5,), np.int64)
+    A = pt.make_csr_matrix((4, 4), ev, ec, rs)
+    W["csr"] = {"out": A @ x}
+    W["csr_vec"] = {"out": (A @ ph("v", (4,))) + 1}
+    # send payload: pay is reachable only through the send
+    pay = ph("pay")
+    W["send"] = {"out": staple_distributed_send(pay * 2, dest_rank=1, comm_tag=7,
+                                                 stapled_to=y + 1)}
+    W["send_leaf"] = {"out": staple_distributed_send(ph("pay2"), dest_rank=1, comm_tag=9,
+                                                      stapled_to=y)}
+    W["recv"] = {"out": make_distributed_recv(src_rank=1, comm_tag=8, shape=(4, 4), dtype=f8) + x}
+    # call binding: arg only sits in the bindings of the call
+    arg = ph("arg")
+    W["call"] = {"out": pt.trace_call(lambda u: 2 * u + 1, pt.cos(arg)) + 1}
+    arg2 = ph("arg2")
+    r2 = pt.trace_call(lambda u, v: {"s": u + v, "d": u - v}, arg2, x)
+    W["call_dict"] = {"o1": r2["s"], "o2": r2["d"] * 2}
+    # loopy binding
+    knl = lp.make_kernel(
+        "{[i, j]: 0<=i, j<4}", "out[i, j] = 2*inp[i, j]",
+        [lp.GlobalArg("inp", dtype=f8, shape=(4, 4)),
+         lp.GlobalArg("out", dtype=f8, shape=(4, 4), is_output=True)],
+        name="twice", lang_version=(2018, 2))
+    from pytato.loopy import call_loopy
+    lin = ph("lin")
+    W["loopy"] = {"out": call_loopy(knl, {"inp": lin + 1})["out"] + 1}
+    # dictionary entry / named-array container
+    d = pt.make_dict_of_named_arrays({"p": x + 1, "q": y * 2})
+    W["container"] = {"out": d["p"] + d["q"]}
+    # several outputs, one of them used by nothing else
+    W["entries"] = {"o1": x + y, "o2": pt.roll(y, 1, 0), "o3": ph("lonely")}
+    return {k: pt.make_dict_of_named_arrays(v) for k, v in W.items()}
